@@ -23,7 +23,7 @@ theorem openFileT_spec (s : St) (n : FName) (now : Nat) :
   unfold openFileT openFile
   cases s.cfg.symlink <;> simp [hit, noFaults, pt] <;> cases s.dir.get n <;> simp
 
-/-- the tail of `mountNextT` once the new infix is chosen (no cleanup) -/
+/-- the tail of `mountNextCoreT` once the new infix is chosen (no cleanup) -/
 def rotTailT (s : St) (a : Active) (i : Infix) (now : Nat) : St × Active × List Pt :=
   let n : FName := ⟨some i, false⟩
   let s1 := (openFileT s n now).1
@@ -40,21 +40,34 @@ theorem mountNextT_skip (s : St) (a : Active) (r : RotCfg) (force : Bool) (now :
   unfold mountNextT
   simp [h]
 
-theorem mountNextT_nD (s : St) (a : Active) (r : RotCfg) (force : Bool) (now : Nat)
+theorem mountNextCoreT_skip (s : St) (a : Active) (r : RotCfg) (force : Bool) (now : Nat)
+    (h : (force || rotationNecessary r a now) = false) :
+    mountNextCoreT s a r force now = (s, a, []) := by
+  unfold mountNextCoreT
+  simp [h]
+
+/-- when a rotation is due, the instrumented `mountNext` flushes (no point) and then runs the
+    instrumented rotation proper -/
+theorem mountNextT_due (s : St) (a : Active) (r : RotCfg) (force : Bool) (now : Nat)
+    (h : (force || rotationNecessary r a now) = true) :
+    mountNextT s a r force now = mountNextCoreT (flushAct s a).1 (flushAct s a).2 r true now := by
+  simp [mountNextT, h]
+
+theorem mountNextCoreT_nD (s : St) (a : Active) (r : RotCfg) (force : Bool) (now : Nat)
     (hn : r.naming = .numbersDirect) (hc : r.cleanup = none)
     (h : (force || rotationNecessary r a now) = true) :
-    mountNextT s a r force now =
+    mountNextCoreT s a r force now =
       rotTailT s { a with idx := a.idx + 1 } (.num (a.idx + 1)) now := by
-  unfold mountNextT
+  unfold mountNextCoreT
   simp only [h, hn]
   simp [rotTailT, flushAct, cleanupT, hc]
 
-theorem mountNextT_tD (s : St) (a : Active) (r : RotCfg) (force : Bool) (now : Nat)
+theorem mountNextCoreT_tD (s : St) (a : Active) (r : RotCfg) (force : Bool) (now : Nat)
     (hn : r.naming = .timestampsDirect) (hc : r.cleanup = none)
     (h : (force || rotationNecessary r a now) = true) :
-    mountNextT s a r force now =
+    mountNextCoreT s a r force now =
       rotTailT s { a with stamp := now } (collisionFree s.dir now) now := by
-  unfold mountNextT
+  unfold mountNextCoreT
   simp only [h, hn]
   simp [rotTailT, flushAct, cleanupT, hc]
 
@@ -167,31 +180,31 @@ theorem described_after_open {cap : Option Nat} (s : St) {act : Active} {a : Abs
   rw [← hpre, ← hcur]
   simp
 
-theorem mountNextT_points (s : St) (act : Active) (a : Abs) (r : RotCfg) (force : Bool)
+theorem mountNextCoreT_points (s : St) (act : Active) (a : Abs) (r : RotCfg) (force : Bool)
     (now lo : Nat) (hB : r.naming = .numbersDirect ∨ r.naming = .timestampsDirect)
     (hc : r.cleanup = none) (hA : ActInv s.cfg.cap s.dir act a) (hN : NamingInv r.naming lo act)
     (hlo : lo ≤ now) (hp : act.pending = []) :
-    (mountNextT s act r force now).1 = (mountNext s act r force now noFaults).1 ∧
-    (mountNextT s act r force now).2.1 = (mountNext s act r force now noFaults).2.1 ∧
-    (mountNext s act r force now noFaults).2.1.pending = [] ∧
-    ∀ p ∈ (mountNextT s act r force now).2.2,
+    (mountNextCoreT s act r force now).1 = (mountNextCore s act r force now noFaults).1 ∧
+    (mountNextCoreT s act r force now).2.1 = (mountNextCore s act r force now noFaults).2.1 ∧
+    (mountNextCore s act r force now noFaults).2.1.pending = [] ∧
+    ∀ p ∈ (mountNextCoreT s act r force now).2.2,
       Described r.naming now p.dir ((a.closed ++ [a.cur]).flatten) := by
   have hnec := rotationNecessary_eq r act a now hA.size hA.created
   have hbefore : Described r.naming now s.dir ((a.closed ++ [a.cur]).flatten) :=
     (described_of_actInv hA hp hN).mono hlo
-  obtain ⟨m1, _, m3, m4⟩ := mountNext_inv s act a r force now lo hB hc hA hN hlo
+  obtain ⟨m1, _, m3, m4⟩ := mountNextCore_inv s act a r force now lo hB hc hA hN hlo
   by_cases hrot : (force || rotationNecessary r act now) = true
   · -- the common part once the equations are known
     have key : ∀ (act' : Active) (i : Infix), act'.handle = act.handle → act'.pending = [] →
         ActInv s.cfg.cap s.dir act' a →
-        mountNext s act r force now noFaults = rotTail s act' i now →
-        mountNextT s act r force now = rotTailT s act' i now →
+        mountNextCore s act r force now noFaults = rotTail s act' i now →
+        mountNextCoreT s act r force now = rotTailT s act' i now →
         i.rotated = true → keyLt (nkey act.handle) i.key = true →
         Shape r.naming now ⟨some i, false⟩ →
-        (mountNextT s act r force now).1 = (mountNext s act r force now noFaults).1 ∧
-        (mountNextT s act r force now).2.1 = (mountNext s act r force now noFaults).2.1 ∧
-        (mountNext s act r force now noFaults).2.1.pending = [] ∧
-        ∀ p ∈ (mountNextT s act r force now).2.2,
+        (mountNextCoreT s act r force now).1 = (mountNextCore s act r force now noFaults).1 ∧
+        (mountNextCoreT s act r force now).2.1 = (mountNextCore s act r force now noFaults).2.1 ∧
+        (mountNextCore s act r force now noFaults).2.1.pending = [] ∧
+        ∀ p ∈ (mountNextCoreT s act r force now).2.2,
           Described r.naming now p.dir ((a.closed ++ [a.cur]).flatten) := by
       intro act' i hh hp' hA' e1 e2 hi hk hS
       obtain ⟨t1, t2, t3⟩ := rotTailT_spec s act' i now
@@ -214,7 +227,7 @@ theorem mountNextT_points (s : St) (act : Active) (a : Abs) (r : RotCfg) (force 
       simp only [NamingInv] at hN'
       refine key { act with idx := act.idx + 1 } (.num (act.idx + 1)) rfl hp
         ⟨hA.started, hA.dir, hA.unbuf, hA.direct, hA.size, hA.created⟩
-        (mountNext_nD s act r force now hnm hc hrot) (mountNextT_nD s act r force now hnm hc hrot)
+        (mountNextCore_nD s act r force now hnm hc hrot) (mountNextCoreT_nD s act r force now hnm hc hrot)
         rfl (by rw [hN']; simp [nkey, Infix.key, keyLt]) (by rw [hnm]; exact ⟨_, rfl⟩)
     · have hN' := hN
       rw [hnm] at hN'
@@ -224,9 +237,27 @@ theorem mountNextT_points (s : St) (act : Active) (a : Abs) (r : RotCfg) (force 
         (by rw [← hh0]; simp) (Nat.le_trans hk hlo)
       refine key { act with stamp := now } (.ts now r') rfl hp
         ⟨hA.started, hA.dir, hA.unbuf, hA.direct, hA.size, hA.created⟩
-        (by rw [mountNext_tD s act r force now hnm hc hrot, hcf])
-        (by rw [mountNextT_tD s act r force now hnm hc hrot, hcf])
+        (by rw [mountNextCore_tD s act r force now hnm hc hrot, hcf])
+        (by rw [mountNextCoreT_tD s act r force now hnm hc hrot, hcf])
         rfl (by rw [hh0]; exact hkey) (by rw [hnm]; exact ⟨now, r', rfl, Nat.le_refl _⟩)
+  · have hrot' : (force || rotationNecessary r act now) = false := by simpa using hrot
+    rw [mountNextCoreT_skip s act r force now hrot', mountNextCore_skip s act r force now noFaults hrot']
+    exact ⟨rfl, rfl, hp, fun p hp => by cases hp⟩
+
+theorem mountNextT_points (s : St) (act : Active) (a : Abs) (r : RotCfg) (force : Bool)
+    (now lo : Nat) (hB : r.naming = .numbersDirect ∨ r.naming = .timestampsDirect)
+    (hc : r.cleanup = none) (hA : ActInv s.cfg.cap s.dir act a) (hN : NamingInv r.naming lo act)
+    (hlo : lo ≤ now) (hp : act.pending = []) :
+    (mountNextT s act r force now).1 = (mountNext s act r force now noFaults).1 ∧
+    (mountNextT s act r force now).2.1 = (mountNext s act r force now noFaults).2.1 ∧
+    (mountNext s act r force now noFaults).2.1.pending = [] ∧
+    ∀ p ∈ (mountNextT s act r force now).2.2,
+      Described r.naming now p.dir ((a.closed ++ [a.cur]).flatten) := by
+  by_cases hrot : (force || rotationNecessary r act now) = true
+  · rw [mountNextT_due s act r force now hrot, mountNext_due s act r force now noFaults hrot]
+    obtain ⟨f1, f2, f3, f4⟩ := flushAct_inv s act a hA
+    exact mountNextCoreT_points (flushAct s act).1 (flushAct s act).2 a r true now lo hB hc
+      (by rw [f1]; exact f4) (hN.congr f2 f3) hlo rfl
   · have hrot' : (force || rotationNecessary r act now) = false := by simpa using hrot
     rw [mountNextT_skip s act r force now hrot', mountNext_skip s act r force now noFaults hrot']
     exact ⟨rfl, rfl, hp, fun p hp => by cases hp⟩
